@@ -262,10 +262,10 @@ func bigStr(x *big.Int) []byte {
 }
 
 func structuredFamilies(r *mon.Run) []family {
-	K := r.N(400_000, 20_000_000) // MaxInt64 ± k
-	J := r.N(500, 100_000)        // 10^e ± j, 2^e ± j
-	G := r.N(20_000, 2_000_000)   // accumulator neighbourhood of MaxInt/10
-	W := r.N(500, 200_000)        // wrap landing points
+	K := r.N(400_000, 5_000_000) // MaxInt64 ± k
+	J := r.N(500, 20_000)        // 10^e ± j, 2^e ± j
+	G := r.N(20_000, 500_000)    // accumulator neighbourhood of MaxInt/10
+	W := r.N(500, 20_000)        // wrap landing points
 	div10 := new(big.Int).SetUint64(math.MaxInt64 / 10)
 	two64 := new(big.Int).Lsh(big.NewInt(1), 64)
 	var fams []family
@@ -527,7 +527,7 @@ func TestC30(t *testing.T) {
 	lap("structured")
 
 	// --- B: random decimal strings
-	nRand := r.N(4_000_000, 300_000_000)
+	nRand := r.N(4_000_000, 150_000_000)
 	blocks(r, secRandom, nRand, 8192, func(a *agg, bi, lo, hi int) {
 		rnd := r.Rand("dec", bi)
 		for i := lo; i < hi; i++ {
@@ -636,7 +636,7 @@ func intClass(sec string, n uint64) (classKey, bool) {
 
 func roundTripInts(r *mon.Run) {
 	st := structuredInts(r)
-	nRand := r.N(1_000_000, 100_000_000)
+	nRand := r.N(1_000_000, 50_000_000)
 	total := len(st) + nRand
 	prefixes := []string{"", "Content-Length: ", "x"}
 	blocks(r, secRT, total, 8192, func(a *agg, bi, lo, hi int) {
@@ -685,7 +685,7 @@ func roundTripInts(r *mon.Run) {
 
 func hexWriter(r *mon.Run) {
 	st := structuredInts(r)
-	nRand := r.N(1_000_000, 100_000_000)
+	nRand := r.N(1_000_000, 50_000_000)
 	total := len(st) + nRand
 	limit := fasthttp.VerifMaxHexIntChars()
 	blocks(r, secHexW, total, 8192, func(a *agg, bi, lo, hi int) {
@@ -784,7 +784,7 @@ func hexReader(r *mon.Run) {
 	for c := 0; c < 256; c++ {
 		st = append(st, sc{"", string([]byte{byte(c)})}, sc{"1", string([]byte{byte(c)})})
 	}
-	nRand := r.N(1_000_000, 100_000_000)
+	nRand := r.N(1_000_000, 50_000_000)
 	total := len(st) + nRand
 	isHex := func(c byte) bool { return c >= '0' && c <= '9' || c >= 'a' && c <= 'f' || c >= 'A' && c <= 'F' }
 	blocks(r, secHexR, total, 8192, func(a *agg, bi, lo, hi int) {
@@ -949,7 +949,7 @@ func deframe(wire []byte) (body []byte, sizes []int, err error) {
 }
 
 func chunkEndToEnd(r *mon.Run) {
-	n := r.N(3_000, 150_000)
+	n := r.N(3_000, 100_000)
 	limit := fasthttp.VerifMaxHexIntChars()
 	blocks(r, secChunk, n, 64, func(a *agg, bi, lo, hi int) {
 		for i := lo; i < hi; i++ {
